@@ -94,6 +94,41 @@ let handle (f : string array) : string =
      | 2 -> "ok 1 1"
      | 1 -> "ok 1 0"
      | _ -> "ok 0 -")
+  | "E" ->
+    (* C09 extension codecs: E id kind args -> ok <value> <fields parsed back> | err create | err parse | PANIC *)
+    let hl (l : n list list) : string =
+      match l with [] -> "-" | _ -> String.concat "," (List.map (fun x -> match x with [] -> "." | _ -> hex_of_bytes x) l) in
+    let oids_of (s : string) : n list list =
+      List.map (fun o -> List.map (fun a -> n_of_int (int_of_string a)) (String.split_on_char '.' o)) (split_on ',' s) in
+    let oids_str (l : n list list) : string =
+      match l with [] -> "-"
+      | _ -> String.concat "," (List.map (fun o -> String.concat "." (List.map (fun a -> string_of_int (int_of_n a)) o)) l) in
+    let ints_str (l : n list) : string =
+      match l with [] -> "-" | _ -> String.concat "," (List.map (fun a -> string_of_int (int_of_n a)) l) in
+    let finish (built : n list outcome) (parse : n list -> string outcome) : string =
+      match built with
+      | Panic -> "PANIC" | Hang -> "HANG" | Err _ -> "err create"
+      | Ok v -> (match parse v with
+                 | Ok s -> "ok " ^ hex_of_bytes v ^ " " ^ s
+                 | Err _ -> "err parse" | Panic -> "PANIC" | Hang -> "HANG") in
+    let omap f o = match o with Ok x -> Ok (f x) | Err e -> Err e | Panic -> Panic | Hang -> Hang in
+    (match f.(2) with
+     | "san" ->
+       finish (Ok (marshalSANs_model (hexlist f.(3)) (hexlist f.(4)) (hexlist f.(5))))
+         (fun v -> omap (fun ((d, e), i) -> hl d ^ " " ^ hl e ^ " " ^ hl i) (parseSANExtension_model v))
+     | "eku" ->
+       finish (build_eku (List.map (fun x -> n_of_int (int_of_string x)) (split_on ',' f.(3))) (oids_of f.(4)))
+         (fun v -> omap (fun (k, u) -> ints_str k ^ " " ^ oids_str u) (parse_eku v))
+     | "pol" -> finish (build_policies (oids_of f.(3))) (fun v -> omap oids_str (parse_policies v))
+     | "nc" ->
+       finish (build_name_constraints (hexlist f.(4)))
+         (fun v -> omap (fun (d, c) -> (if c then "1" else "0") ^ " " ^ hl d) (parse_name_constraints (b f.(3)) v))
+     | "ncx" ->
+       finish (Ok (bytes_of_hex f.(4)))
+         (fun v -> omap (fun (d, c) -> (if c then "1" else "0") ^ " " ^ hl d) (parse_name_constraints (b f.(3)) v))
+     | "ski" -> finish (Ok (build_ski (bytes_of_hex f.(3)))) (fun v -> omap hex_of_bytes (parse_ski v))
+     | "aki" -> finish (Ok (build_aki (bytes_of_hex f.(3)))) (fun v -> omap hex_of_bytes (parse_aki v))
+     | _ -> "BADCASE")
   | _ -> "BADCASE"
 
 let () = run_file Sys.argv.(1) handle
